@@ -43,12 +43,31 @@ func compoundAssignFunction(d *dataTreeNavigator, context Context, expressionNod
 
 		assignmentOpNode := &ExpressionNode{Operation: assignmentOp, LHS: valueExpression, RHS: calculation(valueCopyExp, expressionNode.RHS)}
 
-		_, err = d.GetMatchingNodes(context, assignmentOpNode)
+		// the right hand side belongs to the context node this match was reached from:
+		// .a[] | (.x += .y) adds each element's own .y (documents evaluated together stay together)
+		calculationContext := context
+		if owner := contextNodeHolding(context, candidate); owner != nil && !owner.EvaluateTogether {
+			calculationContext = context.SingleChildContext(owner)
+		}
+
+		_, err = d.GetMatchingNodes(calculationContext, assignmentOpNode)
 		if err != nil {
 			return Context{}, err
 		}
 	}
 	return context, nil
+}
+
+// contextNodeHolding returns the node of the context that is, or contains, the given node.
+func contextNodeHolding(context Context, node *CandidateNode) *CandidateNode {
+	for ancestor := node; ancestor != nil; ancestor = ancestor.Parent {
+		for el := context.MatchingNodes.Front(); el != nil; el = el.Next() {
+			if el.Value.(*CandidateNode) == ancestor {
+				return ancestor
+			}
+		}
+	}
+	return nil
 }
 
 func emptyOperator(_ *dataTreeNavigator, context Context, _ *ExpressionNode) (Context, error) {
